@@ -330,6 +330,18 @@ pub fn check_c13(b: &[u8], l: &mut Local, coll: &Collector) {
             viol(coll, l, "c13.conv", "LanguageIdentifier->Locale->LanguageIdentifier not identity".into(), b,
                  format!("{:?}", li), format!("{:?}", back));
         }
+        // the same identifier assembled from its parts with the raw constructor (variants
+        // sorted and unique, as its contract asks; an empty list as `Some([])`, a representation
+        // the parser never produces): the conversions move the value, they do not rebuild it
+        {
+            let (lang, script, region, vars) = li.clone().into_parts();
+            let raw = LanguageIdentifier::from_raw_parts_unchecked(lang, script, region, Some(vars.into_boxed_slice()));
+            let back: LanguageIdentifier = Locale::from(raw.clone()).into();
+            if back != raw || format!("{:?}", back) != format!("{:?}", raw) {
+                viol(coll, l, "c13.conv", "LanguageIdentifier->Locale->LanguageIdentifier not identity (identifier built with from_raw_parts_unchecked from canonical parts)".into(), b,
+                     format!("{:?}", raw), format!("{:?}", back));
+            }
+        }
         let as_loc = Locale::from(li.clone());
         if !as_loc.extensions.is_empty() || as_loc.id != *li {
             viol(coll, l, "c13.conv", "Locale::from(li) is not (li, no extensions)".into(), b,
